@@ -5,10 +5,13 @@ package main
 import (
 	"bufio"
 	"fmt"
+	"net"
 	"strconv"
 	"strings"
 
 	"github.com/postalsys/muti-metroo/internal/agent"
+	"github.com/postalsys/muti-metroo/internal/crypto"
+	"github.com/postalsys/muti-metroo/internal/exit"
 	"github.com/postalsys/muti-metroo/internal/identity"
 	"github.com/postalsys/muti-metroo/internal/protocol"
 )
@@ -41,7 +44,80 @@ var c16Types = map[string]map[string]uint8{
 	"icmp": {"open": protocol.FrameICMPOpen, "ack": protocol.FrameICMPOpenAck, "err": protocol.FrameICMPOpenErr, "data": protocol.FrameICMPEcho, "close": protocol.FrameICMPClose},
 }
 
-func (w *c16World) agentOut() string {
+// c16Exit is the exit-endpoint side of the world: the agent's real exit.Handler, a loopback sink as
+// destination and the tunnels terminated here (serial = order of successful opens).
+type c16Exit struct {
+	h    *exit.Handler
+	sink *c17Sink
+	tuns []*c16XTun
+	open map[int]bool // serials whose destination socket is open
+}
+
+type c16XTun struct {
+	peer int
+	id   uint64
+	key  *crypto.SessionKey
+	rec  *exit.ActiveConnection
+}
+
+func (x *c16Exit) serialOf(rec *exit.ActiveConnection) int {
+	for i, t := range x.tuns {
+		if t.rec == rec {
+			return i
+		}
+	}
+	return -1
+}
+
+func (x *c16Exit) settle() {
+	c17Wait("exit read loops to settle", func() bool {
+		if c17ReadLoops() != len(x.open) {
+			return false
+		}
+		x.sink.mu.Lock()
+		defer x.sink.mu.Unlock()
+		for i := range x.tuns {
+			if !x.open[i] && !(x.sink.gone[i] || x.sink.self[i]) {
+				return false
+			}
+		}
+		return true
+	})
+}
+
+// reset tears every exit connection down (records and dangling sockets of overwritten records).
+func (x *c16Exit) reset() {
+	for _, k := range exit.C17Keys(x.h) {
+		x.h.HandleStreamClose(c16ID(0), k)
+	}
+	x.sink.mu.Lock()
+	for i, c := range x.sink.conns {
+		x.sink.self[i] = true
+		c.Close()
+	}
+	x.sink.mu.Unlock()
+	x.open = map[int]bool{}
+	c17Wait("exit read loops to end", func() bool { return c17ReadLoops() == 0 })
+	x.sink.ln.Close()
+	x.sink = c17NewSink()
+	x.tuns = nil
+}
+
+// observe compares the record stored under id with the one seen before the op: a record that is
+// gone (or replaced) was closed by the handler.
+func (x *c16Exit) observe(id uint64, pre *exit.ActiveConnection) []string {
+	if pre == nil || exit.C17Record(x.h, id) == pre {
+		return nil
+	}
+	s := x.serialOf(pre)
+	if s >= 0 && x.open[s] {
+		delete(x.open, s)
+		return []string{fmt.Sprintf("dstclosed:%d", s)}
+	}
+	return nil
+}
+
+func (w *c16World) agentOutX(x *c16Exit, extra []string) string {
 	var parts []string
 	for _, s := range w.drain() {
 		name, ok := c16FrameNames[s.f.Type]
@@ -51,7 +127,12 @@ func (w *c16World) agentOut() string {
 		parts = append(parts, fmt.Sprintf("%d:%s:%d", s.peer, name, s.f.StreamID))
 	}
 	tcp, udp, icmp := agent.C16Tables(w.a)
-	return "sent=[" + strings.Join(parts, " ") + "] | tcp " + c16ShowTable(tcp) + " | udp " + c16ShowTable(udp) + " | icmp " + c16ShowTable(icmp)
+	var keys []string
+	for _, k := range exit.C17Keys(x.h) {
+		keys = append(keys, fmt.Sprintf("%d:%d", k, x.serialOf(exit.C17Record(x.h, k))))
+	}
+	return "sent=[" + strings.Join(parts, " ") + "] x=[" + strings.Join(extra, " ") + "] | tcp " + c16ShowTable(tcp) + " | udp " + c16ShowTable(udp) +
+		" | icmp " + c16ShowTable(icmp) + " | exit=[" + strings.Join(keys, " ") + "]"
 }
 
 func c16OpenPayload(kind string, reqID uint64, next int) []byte {
@@ -69,6 +150,7 @@ func c16OpenPayload(kind string, reqID uint64, next int) []byte {
 func init() {
 	var w *c16World
 	var t *agent.C16Table
+	var x *c16Exit
 	var reqID uint64
 	eng := &Engine{
 		Run: func(line string) string {
@@ -76,16 +158,88 @@ func init() {
 			if w == nil {
 				w = c16NewWorld()
 				t = agent.C16NewTable()
+				x = &c16Exit{h: agent.C16StartExit(w.a), sink: c17NewSink(), open: map[int]bool{}}
+			}
+			// a TCP frame that reaches the exit handler may close the record stored under its id
+			tcpOp := func(id uint64, run func()) string {
+				pre := exit.C17Record(x.h, id)
+				run()
+				extra := x.observe(id, pre)
+				x.settle()
+				return w.agentOutX(x, extra)
 			}
 			tOut := func(res string) string { return res + " | " + c16ShowTable(t) }
 			switch f[0] {
 			case "reset":
+				x.reset()
 				w.resetPeers()
 				agent.C16ResetTables(w.a)
 				t = agent.C16NewTable()
 				return "ok"
 			case "end":
-				return w.agentOut()
+				return w.agentOutX(x, nil)
+			case "xopen": // STREAM_OPEN with an empty path: this agent is the exit
+				p, id := c16Atoi(f[1]), c16U64(f[2])
+				if w.conns[p] == nil { // frames only arrive from connected peers
+					return w.agentOutX(x, nil)
+				}
+				priv, pub, err := crypto.GenerateEphemeralKeypair()
+				must(err)
+				reqID++
+				open := &protocol.StreamOpen{RequestID: reqID, AddressType: protocol.AddrTypeIPv4, Address: []byte{127, 0, 0, 1},
+					Port: uint16(x.sink.ln.Addr().(*net.TCPAddr).Port), TTL: 8, EphemeralPubKey: pub}
+				agent.C16Process(w.a, c16ID(p), &protocol.Frame{Type: protocol.FrameStreamOpen, StreamID: id, Payload: open.Encode()})
+				c17Wait("answer to the exit open", func() bool { return w.bufs[p].Len() > 0 })
+				sent := w.drain()
+				var parts []string
+				for _, s := range sent {
+					parts = append(parts, fmt.Sprintf("%d:%s:%d", s.peer, c16FrameNames[s.f.Type], s.f.StreamID))
+					if s.f.Type == protocol.FrameStreamOpenAck && s.peer == p && s.f.StreamID == id {
+						ack, err := protocol.DecodeStreamOpenAck(s.f.Payload)
+						must(err)
+						shared, err := crypto.ComputeECDH(priv, ack.EphemeralPubKey)
+						must(err)
+						serial := len(x.tuns)
+						c17Wait("sink accept", func() bool { x.sink.mu.Lock(); defer x.sink.mu.Unlock(); return len(x.sink.conns) > serial })
+						x.tuns = append(x.tuns, &c16XTun{peer: p, id: id, key: crypto.DeriveSessionKey(shared, reqID, pub, ack.EphemeralPubKey, true), rec: exit.C17Record(x.h, id)})
+						x.open[serial] = true
+					}
+				}
+				x.settle()
+				rest := w.agentOutX(x, nil)
+				return "sent=[" + strings.Join(parts, " ") + "]" + strings.TrimPrefix(rest, "sent=[]")
+			case "xdata": // STREAM_DATA sealed under the session key of exit tunnel `serial`
+				p, id, serial := c16Atoi(f[1]), c16U64(f[2]), c16Atoi(f[3])
+				if serial >= len(x.tuns) {
+					return "bad-op"
+				}
+				ct, err := x.tuns[serial].key.Encrypt([]byte("payload"))
+				must(err)
+				pre := exit.C17Record(x.h, id)
+				before := 0
+				target := -1
+				if pre != nil {
+					target = x.serialOf(pre)
+					x.sink.mu.Lock()
+					before = x.sink.recv[target]
+					x.sink.mu.Unlock()
+				}
+				agent.C16Process(w.a, c16ID(p), &protocol.Frame{Type: protocol.FrameStreamData, StreamID: id, Payload: ct})
+				sent := w.drain()
+				var parts []string
+				for _, s := range sent {
+					parts = append(parts, fmt.Sprintf("%d:%s:%d", s.peer, c16FrameNames[s.f.Type], s.f.StreamID))
+				}
+				extra := x.observe(id, pre)
+				// nothing was forwarded or closed and the payload was sealed for the record stored under the
+				// id: the handler wrote it to that record's destination
+				if len(sent) == 0 && len(extra) == 0 && target == serial && x.open[target] && agent.C16RelayRoutes(w.a, c16ID(p), id) == false {
+					c17Wait("bytes at the destination", func() bool { x.sink.mu.Lock(); defer x.sink.mu.Unlock(); return x.sink.recv[target] >= before+7 })
+					extra = append(extra, fmt.Sprintf("dst:%d", target))
+				}
+				x.settle()
+				rest := w.agentOutX(x, extra)
+				return "sent=[" + strings.Join(parts, " ") + "]" + strings.TrimPrefix(rest, "sent=[]")
 			case "t.ins":
 				t.Insert(agent.C16NewEntry(c16ID(c16Atoi(f[1])), c16U64(f[2]), c16ID(c16Atoi(f[3])), c16U64(f[4])))
 				return tOut("ok")
@@ -112,24 +266,31 @@ func init() {
 				return tOut(fmt.Sprintf("n=%d", t.DeleteByPeer(c16ID(c16Atoi(f[1])))))
 			case "conn":
 				w.connect(c16Atoi(f[1]), f[2] == "d")
-				return w.agentOut()
+				return w.agentOutX(x, nil)
 			case "disc":
 				w.disconnect(c16Atoi(f[1]))
-				return w.agentOut()
+				return w.agentOutX(x, nil)
 			case "open":
 				reqID++
 				agent.C16Process(w.a, c16ID(c16Atoi(f[2])), &protocol.Frame{Type: c16Types[f[1]]["open"], StreamID: c16U64(f[3]), Payload: c16OpenPayload(f[1], reqID, c16Atoi(f[4]))})
-				return w.agentOut()
+				return w.agentOutX(x, nil)
 			case "ack", "err", "data", "close":
 				payload := []byte{1, 2, 3}
 				if f[0] == "err" {
 					payload = (&protocol.StreamOpenErr{RequestID: 1, ErrorCode: 1, Message: "x"}).Encode()
 				}
-				agent.C16Process(w.a, c16ID(c16Atoi(f[2])), &protocol.Frame{Type: c16Types[f[1]][f[0]], StreamID: c16U64(f[3]), Payload: payload})
-				return w.agentOut()
+				run := func() {
+					agent.C16Process(w.a, c16ID(c16Atoi(f[2])), &protocol.Frame{Type: c16Types[f[1]][f[0]], StreamID: c16U64(f[3]), Payload: payload})
+				}
+				if f[1] == "tcp" {
+					return tcpOp(c16U64(f[3]), run)
+				}
+				run()
+				return w.agentOutX(x, nil)
 			case "rst":
-				agent.C16Process(w.a, c16ID(c16Atoi(f[1])), &protocol.Frame{Type: protocol.FrameStreamReset, StreamID: c16U64(f[2]), Payload: (&protocol.StreamReset{ErrorCode: 1}).Encode()})
-				return w.agentOut()
+				return tcpOp(c16U64(f[2]), func() {
+					agent.C16Process(w.a, c16ID(c16Atoi(f[1])), &protocol.Frame{Type: protocol.FrameStreamReset, StreamID: c16U64(f[2]), Payload: (&protocol.StreamReset{ErrorCode: 1}).Encode()})
+				})
 			}
 			return "bad-op"
 		},
@@ -149,7 +310,7 @@ func c16Gen(w *bufio.Writer, seed int64, tier string) {
 	r := newRng(seed)
 	nT, nA := 150, 400
 	if tier == "thorough" {
-		nT, nA = 4000, 12000
+		nT, nA = 4000, 5000
 	}
 	ids := []uint64{1, 2, 3, 5, 7, 1 << 32, 1<<63 - 1, 1 << 63, ^uint64(0)}
 	id := func() uint64 {
@@ -227,11 +388,61 @@ func c16Gen(w *bufio.Writer, seed int64, tier string) {
 			nOps = 150
 		}
 		distinctOnly := r.chance(40) // cases where every upstream id is globally distinct
+		// pair mode: ONE peer uses this agent as transit, ONE other peer uses it as exit, each numbering
+		// its streams 1,3,5,…: equal ids on an exit stream and a relayed stream, no other collision
+		pairMode := !distinctOnly && r.chance(45)
+		relayPeer, exitPeer := 1, 2
+		if r.chance(50) {
+			relayPeer, exitPeer = 2, 1
+		}
+		type xt struct {
+			peer   int
+			id     uint64
+			serial int
+		}
+		var xts []xt
 		var globalUp uint64 = 1
 		for k := 0; k < nOps; k++ {
 			switch x := r.intn(100); {
-			case x < 30 || len(tuns) == 0:
+			case x < 12 || (pairMode && len(xts) == 0):
+				// a stream that terminates here (exit)
+				p := 1 + r.intn(np)
+				if pairMode {
+					p = exitPeer
+				}
+				if !from(p) {
+					break
+				}
+				var sid uint64
+				if distinctOnly {
+					sid = globalUp
+					globalUp += 2
+				} else {
+					if nextUp[p] == 0 {
+						nextUp[p] = 1
+						if dialed[p] {
+							nextUp[p] = 2
+						}
+					}
+					sid = nextUp[p]
+					nextUp[p] += 2
+				}
+				xts = append(xts, xt{p, sid, len(xts)})
+				fmt.Fprintf(w, "xopen %d %d\n", p, sid)
+			case x < 20 && len(xts) > 0:
+				t := xts[r.intn(len(xts))]
+				if from(t.peer) {
+					if r.chance(85) {
+						fmt.Fprintf(w, "xdata %d %d %d\n", t.peer, t.id, t.serial)
+					} else {
+						fmt.Fprintf(w, "%s tcp %d %d\n", r.pickS("close", "data"), t.peer, t.id)
+					}
+				}
+			case x < 38 || len(tuns) == 0:
 				up := 1 + r.intn(np)
+				if pairMode {
+					up = relayPeer
+				}
 				next := 1 + r.intn(np+1) // may be a peer that is not connected
 				if next == up {
 					next = 1 + (up % np)
@@ -312,6 +523,12 @@ func c16Gen(w *bufio.Writer, seed int64, tier string) {
 			fmt.Fprintf(w, "close %s %d %d\n", t.kind, t.up, t.upID)
 			if r.chance(20) {
 				fmt.Fprintf(w, "close %s %d %d\n", t.kind, t.up, t.upID)
+			}
+		}
+		for _, t := range xts {
+			if from(t.peer) {
+				fmt.Fprintf(w, "xdata %d %d %d\n", t.peer, t.id, t.serial)
+				fmt.Fprintf(w, "close tcp %d %d\n", t.peer, t.id)
 			}
 		}
 		for p := 1; p <= np; p++ {
